@@ -44,7 +44,12 @@ func c14Unit(r *fw.Rand, size int) []byte {
 	}
 	u := make([]byte, size)
 	gen.NALBody(r, u[2:])
-	h := ref.H265Hdr{Type: uint8(r.Pick(0, 1, 19, 20, 32, 33, 34, 39, 40, 47, r.Intn(48))), Layer: uint8(r.Pick(0, 0, 0, 1, 63, r.Intn(64))), TID: uint8(r.Range(1, 7))}
+	h := ref.H265Hdr{Type: uint8(r.Pick(0, 1, 19, 20, 32, 33, 34, 39, 40, 47, r.Intn(48))), Layer: uint8(r.Pick(0, 0, 0, 1, 63, r.Intn(64))), TID: uint8(r.Pick(0, 1, 1, 2, 7, r.Range(1, 7), r.Range(1, 7), r.Range(1, 7)))}
+	if h.TID == 0 {
+		// TID 0 is not legal HEVC (it exists to prevent start-code emulation); it is exercised for the aggregation
+		// header minimum only, and never together with a second header byte of 0x00 (that would emulate a start code)
+		h.Layer |= 1
+	}
 	copy(u, h.Bytes())
 	return u
 }
@@ -57,8 +62,9 @@ func c14Size(r *fw.Rand, mtu int) int {
 	if s > 60000 {
 		s = 60000
 	}
-	if mtu >= 1000 && r.Chance(1, 30) {
-		s = r.Pick(65533, 65534, 65535, 65536, 65537, 70000, 131073) // units beyond 64 KiB (16-bit size fields must not be involved in fragmentation)
+	if (mtu >= 1000 && r.Chance(1, 30)) || (mtu >= 64 && r.Chance(1, 120)) || r.Chance(1, 4000) {
+		// units beyond 64 KiB at any MTU (more than 65535 fragments at tiny MTUs): 16-bit arithmetic must not be involved
+		s = r.Pick(65533, 65534, 65535, 65536, 65537, 65538, 65539, 70000, 131073)
 	}
 	return s
 }
